@@ -1,5 +1,6 @@
 import JellyGenerated.EncGen
 import JellyProofs.Translated
+import JellyProofs.TranslatedFuncs
 /-!
 # The TRANSLATED row bracket of the term encoder equals the model
 
@@ -32,5 +33,73 @@ theorem start_row_eq (te : TermEnc) :
 theorem end_row_eq (te : TermEnc) : Gen.TermEncoder.end_row.exec te = (.ok (), te.endRow) := by
   unfold Gen.TermEncoder.end_row TermEnc.endRow
   py_simp [LookupEnc.unpin]
+
+
+/-- `encode_iri_indices`: the entry rows an IRI needs and its (prefix id, name id) pair, with the encoder left — also when a
+    table refuses — exactly as the model leaves it. Side condition as for `insert`: a full table is not empty. -/
+theorem encode_iri_indices_eq (te : TermEnc) (iri : String)
+    (hp : te.prefixes.lookup.evicting = true → te.prefixes.lookup.data ≠ [])
+    (hn : te.names.lookup.evicting = true → te.names.lookup.data ≠ []) :
+    swap ((Gen.TermEncoder.encode_iri_indices iri).exec te) = te.iriIndices iri := by
+  unfold Gen.TermEncoder.encode_iri_indices TermEnc.iriIndices
+  simp only [split_iri_eq]
+  generalize hsp : splitIri iri = sp
+  obtain ⟨pfx, nm0⟩ := sp
+  by_cases hz : te.prefixes.lookup.maxSize = 0
+  · -- prefix table disabled: the whole IRI goes to the name table
+    have h2 := entry_index_exec te.names iri hn
+    simp only [M.exec, ExceptT.run, StateT.run] at h2
+    cases hn1 : te.names.entryIndex iri with
+    | error err => rw [hn1] at h2; py_simp [swap, hz, h2, hn1, execLike]
+    | ok r2 =>
+      obtain ⟨ne, nEntry⟩ := r2
+      rw [hn1] at h2
+      have h3 := prefix_term_index_exec te.prefixes pfx
+      simp only [M.exec, ExceptT.run, StateT.run] at h3
+      have hp0 : te.prefixes.prefixTermIndex pfx = .ok (te.prefixes, 0) := by
+        unfold LookupEnc.prefixTermIndex; simp [hz]
+      rw [hp0] at h3
+      have h4 := name_term_index_exec ne iri
+      simp only [M.exec, ExceptT.run, StateT.run] at h4
+      cases hn2 : ne.nameTermIndex iri with
+      | error err => rw [hn2] at h4; cases nEntry <;> py_simp [swap, hz, h2, hn1, h3, hp0, h4, hn2, execLike, optGet]
+      | ok r4 =>
+        obtain ⟨ne', nIdx⟩ := r4
+        rw [hn2] at h4
+        cases nEntry <;> py_simp [swap, hz, h2, hn1, h3, hp0, h4, hn2, execLike, optGet]
+  · -- prefix table enabled
+    have h1 := entry_index_exec te.prefixes pfx hp
+    simp only [M.exec, ExceptT.run, StateT.run] at h1
+    cases hp1 : te.prefixes.entryIndex pfx with
+    | error err => rw [hp1] at h1; py_simp [swap, hz, h1, hp1, execLike]
+    | ok r1 =>
+      obtain ⟨pe, pEntry⟩ := r1
+      rw [hp1] at h1
+      have h2 := entry_index_exec te.names nm0 hn
+      simp only [M.exec, ExceptT.run, StateT.run] at h2
+      cases hn1 : te.names.entryIndex nm0 with
+      | error err => rw [hn1] at h2; py_simp [swap, hz, h1, hp1, h2, hn1, execLike]
+      | ok r2 =>
+        obtain ⟨ne, nEntry⟩ := r2
+        rw [hn1] at h2
+        have h3 := prefix_term_index_exec pe pfx
+        simp only [M.exec, ExceptT.run, StateT.run] at h3
+        cases hp2 : pe.prefixTermIndex pfx with
+        | error err =>
+          rw [hp2] at h3
+          cases pEntry <;> cases nEntry <;> py_simp [swap, hz, h1, hp1, h2, hn1, h3, hp2, execLike, optGet]
+        | ok r3 =>
+          obtain ⟨pe', pIdx⟩ := r3
+          rw [hp2] at h3
+          have h4 := name_term_index_exec ne nm0
+          simp only [M.exec, ExceptT.run, StateT.run] at h4
+          cases hn2 : ne.nameTermIndex nm0 with
+          | error err =>
+            rw [hn2] at h4
+            cases pEntry <;> cases nEntry <;> py_simp [swap, hz, h1, hp1, h2, hn1, h3, hp2, h4, hn2, execLike, optGet]
+          | ok r4 =>
+            obtain ⟨ne', nIdx⟩ := r4
+            rw [hn2] at h4
+            cases pEntry <;> cases nEntry <;> py_simp [swap, hz, h1, hp1, h2, hn1, h3, hp2, h4, hn2, execLike, optGet]
 
 end Jelly.Translated
